@@ -138,6 +138,15 @@ theorem delivOf_cases (inp : RunInput) (c : Name) (d : Den) :
 theorem delivOf_bot (inp : RunInput) (c : Name) : delivOf inp c .bot = {} := by
   simp [delivOf, startedFail, Den.rs, RS.good]
 
+theorem startedFail_rs {inp : RunInput} {c : Name} {d : Den} (h : startedFail inp c d = true) : d.rs = .fail := by
+  cases d with
+  | fail k => rfl
+  | _ => simp [startedFail] at h
+
+theorem delivOf_startedFail {inp : RunInput} {c : Name} {d : Den} (hs : startedFail inp c d = true) :
+    delivOf inp c d = inp.calcResFail c := by
+  simp [delivOf, startedFail_rs hs, hs, RS.good]
+
 theorem delivOf_fail {inp : RunInput} {c : Name} {d : Den} (hg : d.rs.good = false) (hs : startedFail inp c d = true) :
     delivOf inp c d = inp.calcResFail c := by
   simp [delivOf, hg, hs]
